@@ -27,7 +27,7 @@ None == [t |-> "n", v |-> <<>>]
 
 \* state threaded through evaluation
 S0(ctx, fuel) == [cells |-> <<>>, nextAct |-> 1, logs |-> <<>>, gs |-> InitGS(ctx), ls |-> <<>>,
-                  bx |-> <<>>, writes |-> <<>>, itx |-> <<>>, sub |-> <<>>, fuel |-> fuel, mv |-> <<>>]
+                  bx |-> <<>>, writes |-> <<>>, itx |-> <<>>, sub |-> <<>>, fuel |-> fuel, mv |-> <<>>, dyn |-> <<>>]
 
 SGet(f, k, d) == IF k \in DOMAIN f THEN f[k] ELSE d
 SPut(f, k, v) == [x \in (DOMAIN f) \cup {k} |-> IF x = k THEN v ELSE f[x]]
@@ -198,6 +198,20 @@ SEval(node, env, st) ==
          LET r == SEval(a[1], env, st) IN
          IF r.sig # "ok" THEN r
          ELSE SR([r.st EXCEPT !.cells = SPut(@, CellKey(env, node.i[1]), r.v)], None)
+    [] k = "Idx" ->        \* ScratchVar.index(): the requested slot id; unknown (inconclusive) for automatic numbering
+         LET v == node.i[1] IN
+         IF v <= Len(env.slots) /\ env.slots[v] >= 0 THEN SR(st, U(FromInt(env.slots[v]))) ELSE SSig(st, None, "uninit", "")
+    [] k = "DynSet" ->     \* DynamicScratchVar d now refers to the cell of variable v
+         SR([st EXCEPT !.dyn = SPut(@, node.i[1], CellKey(env, node.i[2]))], None)
+    [] k = "DynLoad" ->
+         IF node.i[1] \notin DOMAIN st.dyn THEN SSig(st, None, "uninit", "")
+         ELSE LET key == st.dyn[node.i[1]] IN
+              IF key \in DOMAIN st.cells THEN SR(st, st.cells[key]) ELSE IF key[2] = 0 THEN SR(st, U0) ELSE SSig(st, None, "uninit", "")
+    [] k = "DynStore" ->
+         LET r == SEval(a[1], env, st) IN
+         IF r.sig # "ok" THEN r
+         ELSE IF node.i[1] \notin DOMAIN r.st.dyn THEN SSig(r.st, None, "uninit", "")
+         ELSE SR([r.st EXCEPT !.cells = SPut(@, r.st.dyn[node.i[1]], r.v)], None)
     [] k = "PVal" -> SR(st, env.params[node.i[1]])                          \* by-value parameter
     [] k = "PLoad" ->                                                        \* by-reference parameter
          LET key == env.params[node.i[1]] IN
@@ -287,7 +301,8 @@ SEval(node, env, st) ==
 
 \* the outcome of a whole program
 SOutcome(prog, ctx, fuel) ==
-  LET env == [ctx |-> ctx, rt |-> prog.rt, rid |-> 0, act |-> 0, params |-> <<>>, locals |-> <<>>]
+  LET env == [ctx |-> ctx, rt |-> prog.rt, rid |-> 0, act |-> 0, params |-> <<>>, locals |-> <<>>,
+              slots |-> IF "vars" \in DOMAIN prog THEN [j \in 1..Len(prog.vars) |-> prog.vars[j].slot] ELSE <<>>]
       r == SEval(prog.main, env, S0(ctx, fuel))
       cls == CASE r.sig \in {"fuel", "uninit"} -> "inconclusive"
                [] r.sig = "fail" -> "fail"
